@@ -166,7 +166,9 @@ func sortImportSpecs(c *canonNode) {
 			rest = append(rest, k)
 		}
 	}
-	sort.SliceStable(specs, func(i, j int) bool { return specs[i].String() < specs[j].String() })
+	// by the import path itself (not its spelling), then by the whole spec
+	key := func(c *canonNode) string { return importPathOf(c) + "\x00" + c.String() }
+	sort.SliceStable(specs, func(i, j int) bool { return key(specs[i]) < key(specs[j]) })
 	var uniq []*canonNode
 	for i, s := range specs {
 		if i > 0 && s.String() == specs[i-1].String() {
@@ -175,6 +177,29 @@ func sortImportSpecs(c *canonNode) {
 		uniq = append(uniq, s)
 	}
 	c.kids = append(rest, uniq...)
+}
+
+// litValue is the unquoted value of a canonical BasicLit string node ("" if it is none).
+func litValue(c *canonNode) string {
+	for _, a := range c.attr {
+		if strings.HasPrefix(a, "Value=") {
+			if v, err := strconv.Unquote(a[len("Value="):]); err == nil {
+				if u, err := strconv.Unquote(v); err == nil {
+					return u
+				}
+			}
+		}
+	}
+	return ""
+}
+
+func importPathOf(spec *canonNode) string {
+	for _, k := range spec.kids {
+		if k.fld == "Path" {
+			return litValue(k)
+		}
+	}
+	return ""
 }
 
 func (c *canonNode) String() string {
@@ -231,6 +256,10 @@ func firstDiff(x, y *canonNode, parent string) (sig, detail string, differ bool)
 	}
 	if x.kind != y.kind {
 		return fmt.Sprintf("%s:%s->%s", where, x.head(), y.head()), fmt.Sprintf("%s became %s", clip(x.String(), 200), clip(y.String(), 200)), true
+	}
+	if parent == "ImportSpec" && x.fld == "Path" && strings.Join(x.attr, " ") != strings.Join(y.attr, " ") && litValue(x) != "" && litValue(x) == litValue(y) {
+		// same path, other spelling: printer sanitizeImportPath rewrites raw / escaped import paths
+		return "ImportSpec.Path:spelling-canonicalised", fmt.Sprintf("import path %v became %v", x.attr, y.attr), true
 	}
 	if strings.Join(x.attr, " ") != strings.Join(y.attr, " ") {
 		return fmt.Sprintf("%s:%s:attr", where, x.kind), fmt.Sprintf("%s %v became %v", x.kind, x.attr, y.attr), true
